@@ -34,7 +34,7 @@ pub fn run(ctx: &mut Ctx) {
             ..Default::default()
         };
         let op = StoreOpts::default();
-        let (m0, mut p) = match (open(&sm.path, &om), open(&sp.path, &op)) {
+        let (m0, p) = match (open(&sm.path, &om), open(&sp.path, &op)) {
             (Ok(m), Ok(p)) => (m, p),
             (a, b) => {
                 ctx.inconclusive(format!("case {k}: open failed {:?} {:?}", a.err(), b.err()));
